@@ -766,8 +766,8 @@ def tla_set(items):
     return "{" + ", ".join(items) + "}"
 
 
-def dn(d, n, s1="{}", s2="{}", lean=False):
-    return f"<<{d}, {n}, {s1}, {s2}, {'TRUE' if lean else 'FALSE'}>>"
+def dn(d, n, s1="{}", s2="{}", lean=False, ords='{"id", "rot"}'):
+    return f"<<{d}, {n}, {s1}, {s2}, {'TRUE' if lean else 'FALSE'}, {ords}>>"
 
 
 def tdef(full, ts):
@@ -854,7 +854,7 @@ def run(tier):
     for mode in ("rep", "alg", "act", "obs"):
         res, pts = enumerate_points(
             "C20", f"obs-{mode}", "Observables",
-            {"Mode": f'"{mode}"', "DN": tla_set(L[mode]), "OrdSel": L["ords"], "MaxLaw": str(L["maxlaw"]),
+            {"Mode": f'"{mode}"', "DN": tla_set(L[mode]), "MaxLaw": str(L["maxlaw"]),
              "MaxRep": str(L["maxrep"]), "MaxProd": str(L["maxprod"])}, ["Emit", "Laws"])
         t0 = time.time()
         n = run_points(mode, pts, V, extra=(300 if quick else 1500) if mode == "obs" else None)
